@@ -43,7 +43,7 @@ def plan(tier):
             "required_monitors": ["inputs-unchanged", "same-result-twice", "precedence-map", "precedence-hist2d",
                                   "precedence-hist1d"],
             "required_tags": ["shared-resolution-dict", "shared-layer", "raising-call", "thick-map", "scatter", "plot1d",
-                              "layer-component-or-colour"]}
+                              "layer-component-or-colour", "two-layers-one-sets-the-option"]}
 
 
 def cases(ctx):
@@ -52,6 +52,15 @@ def cases(ctx):
         for opt in opts:
             for st in SETTINGS:
                 out.append({"id": f"prec-{fn}-{opt}-{st}", "kind": "prec", "fn": fn, "opt": opt, "setting": st})
+    # two layers in one call: an option set on one of them only, with and without a call-level value - the call-level value
+    # (or the default) applies to the layer that leaves the option unset, whichever comes first
+    for fn, opts in (("map", ["mode", "norm", "vmin", "vmax", "cmap"]), ("hist2d", ["mode", "norm", "vmin", "vmax", "cmap"]),
+                     ("hist1d", ["bins", "alpha"])):
+        for opt in opts:
+            for which in (0, 1):
+                for call in (False, True):
+                    out.append({"id": f"prec2-{fn}-{opt}-L{which}-{'call' if call else 'nocall'}", "kind": "prec2", "fn": fn,
+                                "opt": opt, "which": which, "call": call})
     n = 120 if ctx.tier == "quick" else 5000
     out += [{"id": f"j{i}", "kind": "joint", "i": i} for i in range(n)]
     m = 180 if ctx.tier == "quick" else 5000
@@ -90,6 +99,9 @@ def run_case(case, ctx, res):
         if case["kind"] == "prec":
             rng = np.random.default_rng(np.random.SeedSequence([20240219, 19, abs(hash(case["id"])) % 2**31]))
             _prec(osy, rng, res, case["fn"], {case["opt"]: case["setting"]})
+        elif case["kind"] == "prec2":
+            rng = np.random.default_rng(np.random.SeedSequence([20240219, 192, abs(hash(case["id"])) % 2**31]))
+            _prec2(osy, rng, res, case["fn"], case["opt"], case["which"], case["call"])
         elif case["kind"] == "joint":
             rng = ctx.rng("joint", case["i"])
             fn = ["map", "mapthick", "hist2d", "hist1d"][int(rng.integers(0, 4))]
@@ -217,6 +229,76 @@ def _prec(osy, rng, res, fn, settings):
             if got_alpha != eff:
                 res.violate("precedence-wrong", f"histogram1d: alpha layer={lkw.get('alpha')} call={ckw.get('alpha')}: bars drawn with "
                             f"alpha {got_alpha!r}, expected {eff!r}")
+
+
+def _prec2(osy, rng, res, fn, opt, which, call):
+    """two layers; layer `which` sets the option (value A), the other leaves it unset; the call passes value B or nothing"""
+    from osyris.core.layer import Layer
+    a, b = VALUES[opt]
+    lkws = [{opt: a} if k == which else {} for k in (0, 1)]
+    ckw = {opt: b} if call else {}
+    sets = ["both" if (k == which and call) else "layer" if k == which else "call" if call else "neither" for k in (0, 1)]
+    res.digest_src = {"fn": fn, "opt": opt, "which": which, "call": call}
+    res.sample = {"function": fn, "option": opt, "set_on_layer": which, "call_level_value": call, "expected_per_layer": sets}
+    res.nontrivial = True
+    res.tag("two-layers-one-sets-the-option")
+    if fn == "map":
+        mesh, dg = small_mesh(osy, rng)
+        lays = [dg.layer("temp", **lkws[0]), dg.layer("tag", **lkws[1])]
+        kw = dict(direction="z", dx=0.8 * osy.units("au"), origin=osy.Vector(0.3712, 0.4139, 0.4391, unit="au"), resolution=8,
+                  plot=False, **ckw)
+        before = fp([lays, dg])
+        with quiet():
+            o = attempt(lambda: osy.map(*lays, **kw))
+        res.count("precedence-map")
+        inputs_after = fp([lays, dg])
+    elif fn == "hist2d":
+        n = 300
+        x = osy.Array(values=rng.uniform(0, 10, n), unit="cm", name="x")
+        y = osy.Array(values=rng.uniform(0, 10, n), unit="s", name="y")
+        ws = [osy.Array(values=rng.integers(1, 600, size=n).astype(float), unit="K", name=f"w{k}") for k in (0, 1)]
+        lays = [Layer(ws[0], **lkws[0]), Layer(ws[1], **lkws[1])]
+        before = fp([x, y, ws, lays])
+        with quiet():
+            o = attempt(lambda: osy.histogram2d(x, y, *lays, resolution=6, plot=False, **ckw))
+        res.count("precedence-hist2d")
+        inputs_after = fp([x, y, ws, lays])
+    else:
+        n = 300
+        xs = [osy.Array(values=rng.uniform(0, 10, n), unit="cm", name=f"x{k}") for k in (0, 1)]
+        lays = [Layer(xs[0], **lkws[0]), Layer(xs[1], **lkws[1])]
+        before = fp([xs, lays])
+        with quiet():
+            o = attempt(lambda: osy.histogram1d(*lays, **ckw))
+        res.count("precedence-hist1d")
+        inputs_after = fp([xs, lays])
+    label = f"{fn} with two layers, {opt}={a!r} on layer {which} only, call-level {opt}={'%r' % (b,) if call else 'not given'}"
+    if inputs_after != before:
+        res.violate("input-modified", f"{label}: an input was modified")
+    if not o.ok:
+        res.violate("plot-raised", f"{label}: {o.describe()}", tb=o.tb)
+        return
+    if fn in ("map", "hist2d"):
+        got = o.value.layers
+        if len(got) != 2:
+            res.violate("precedence-wrong", f"{label}: {len(got)} layers returned")
+            return
+        for k in (0, 1):
+            _judge_common(res, f"{label} [layer {k}]", {opt: sets[k]}, got[k], lkws[k], ckw)
+    else:
+        eff = [effective(opt, sets[k], 50 if opt == "bins" else None) for k in (0, 1)]
+        conts = list(o.value.ax.containers)
+        if len(conts) != 2:
+            res.violate("precedence-wrong", f"{label}: {len(conts)} bar containers drawn for two layers")
+            return
+        if opt == "bins":
+            gotb = [len(c) for c in conts]
+            if gotb != eff:
+                res.violate("precedence-wrong", f"{label}: layers drawn with {gotb} bins, expected {eff}")
+        else:
+            gota = [c.patches[0].get_alpha() if len(c) else None for c in conts]
+            if gota != eff:
+                res.violate("precedence-wrong", f"{label}: layers drawn with alpha {gota}, expected {eff}")
 
 
 def _judge_common(res, fn, settings, got, lkw, ckw):
